@@ -22,8 +22,9 @@ the invariant (and with it every theorem below) is proved for the source in whic
 namespace GS.C04
 open GS.ReqLife GS.Generated GS.Generated.StatusCodes
 
-/-- the stage order of `terminateRequest` that the model mirrors is the one in the source. -/
-theorem terminate_stages_match : ReqLifecycleSpec.terminateStages = modelTerminateStages := by decide
+/-- the stage order of `terminateRequest` in the source satisfies the ordering constraints the model's
+    `terminate` relies on (see `stagesOk`). -/
+theorem terminate_stages_ok : stagesOk ReqLifecycleSpec.terminateStages = true := by decide
 
 /-- both repairs of the pause/cancel defects are present in the source the model was generated from. -/
 theorem repairs_present :
